@@ -187,6 +187,20 @@ def chanfile_delivery_part(ctx, rng, own_prefixes):
     return {"cases": len(cases), "verdict_histogram": hist}
 
 
+def closed_receive_part(ctx):
+    """C03 on a real gateway: plain and timed receive() calls from two threads on a channel the peer has closed (spec/ClosedReceiveCases.tla)"""
+    from real import closedrecv_real
+
+    outs = [closedrecv_real.run(4000 if ctx.quick else 40000)]
+    verdicts = batch.judge("ClosedReceiveCases", outs, ctx.scratch)
+    for o, vd in zip(outs, verdicts):
+        if vd.startswith("HARNESS"):
+            ctx.machinery(f"{vd}: {json.dumps(o)[:300]}")
+        elif vd != "ok":
+            ctx.violation(f"{vd}: {json.dumps(o)[:300]}", o)
+    return {"cases": len(outs), "calls": outs[0]["eof"] + outs[0]["plain_eof"], "verdicts": list(verdicts)}
+
+
 def cbend_part(ctx):
     """C07 on real popen / socket / via gateways: callbacks that raise when they are handed their endmarker, on either side; judged by
     spec/CbEndCases.tla (no other channel disturbed, the connection stays up)"""
